@@ -20,6 +20,8 @@ UNIT_SETS = {
     "other": {"X": "km", "Y": "hr", "W": "lb"},
     "compound": {"X": "m/s", "Y": "kg*m**2", "W": "1/s"},
     "dimless": {"X": "dimensionless", "Y": "s", "W": "g"},
+    # angles: unit-aware behaviour is documented for the trigonometric ufuncs only (C04); everything else computes as NumPy does
+    "angle": {"X": "degree", "Y": "s", "W": "g"},
 }
 
 
@@ -136,7 +138,7 @@ def _short(tr, path):
 
 def plan(tier, seed):
     packs = [seed % 4] if tier == "quick" else [0, 1, 2, 3]
-    usets = ["si", "compound"] if tier == "quick" else list(UNIT_SETS)
+    usets = ["si", "compound", "angle"] if tier == "quick" else list(UNIT_SETS)
     return packs, usets
 
 
